@@ -94,8 +94,18 @@ func (fc *FuncCtx) sortOfTypeName(name string, sc *specCtx) (*Sort, types.Type) 
 		} else {
 			scopePkg = fc.pkg.Types
 		}
+		// import alias visible at the contract's position
+		if sc != nil && sc.callee == nil && sc.pos.IsValid() && fc.pkg != nil {
+			if inner := fc.pkg.Types.Scope().Innermost(sc.pos); inner != nil {
+				if _, o := inner.LookupParent(pk, sc.pos); o != nil {
+					if pn, ok := o.(*types.PkgName); ok {
+						obj = pn.Imported().Scope().Lookup(nm)
+					}
+				}
+			}
+		}
 		for _, imp := range scopePkg.Imports() {
-			if imp.Name() == pk {
+			if obj == nil && imp.Name() == pk {
 				obj = imp.Scope().Lookup(nm)
 			}
 		}
@@ -674,11 +684,13 @@ func (fc *FuncCtx) evalSpecCall(st *State, e *SExpr, sc *specCtx) Val {
 	if fv.FnObj != nil {
 		args := evalArgs()
 		sig := fv.FnObj.Type().(*types.Signature)
+		if fv.Recv == nil {
+			sig = inferSig(sig, args)
+		}
 		var resT types.Type = sig.Results()
 		if sig.Results().Len() == 1 {
 			resT = sig.Results().At(0).Type()
 		}
-		// instantiate result type for methods on instantiated receivers is not needed for sorts
 		fc.noOblig++
 		defer func() { fc.noOblig-- }()
 		saved := fc.inSpec
@@ -756,6 +768,18 @@ func (fc *FuncCtx) specBuiltin(st *State, name string, argEs []*SExpr, sc *specC
 			s, _ = fc.sortOfTypeName(argEs[2].Name, sc)
 		}
 		return Val{T: App("seqat$"+sortTag(s), s, a.T, i.T)}, true
+	case "seqat2":
+		// second component of the a-th pair of an iter.Seq2
+		a, i := arg(0), arg(1)
+		s := SV
+		if len(argEs) > 2 {
+			s, _ = fc.sortOfTypeName(argEs[2].Name, sc)
+		}
+		var typ types.Type
+		if len(argEs) > 3 {
+			_, typ = fc.sortOfTypeName(strings.ReplaceAll(argEs[3].String(), " ", ""), sc)
+		}
+		return Val{T: App("seqat2$"+sortTag(s), s, a.T, i.T), Typ: typ}, true
 	case "ite":
 		c, a, b := arg(0), arg(1), arg(2)
 		return Val{T: Ite(c.T, a.T, b.T), Typ: a.Typ}, true
